@@ -83,6 +83,7 @@ class Ctx:
         self.tlc_runs = []
         self._distinct = set()
         self.findings = load_findings()
+        self.only_key = None       # replay mode: report this violation key only, leave the evidence file alone
 
     # ---- coverage bookkeeping
     def add_tlc(self, res, label=None):
@@ -107,6 +108,8 @@ class Ctx:
     # ---- findings protocol
     def violation(self, key, what, replay=None):
         """key: specific fingerprint 'Cxx:...'; matched against known_findings.json (open entries only)."""
+        if self.only_key is not None and key != self.only_key:
+            return False
         for f in self.findings:
             if f.get("status") == "open" and f.get("property") == self.pid and f.get("key") == key:
                 if key not in [k["key"] for k in self.known]:
@@ -137,9 +140,10 @@ class Ctx:
               "coverage": cov, "assumptions": self.assumptions, "wall_s": round(wall, 2),
               "violations": len(self.violations),
               "known_findings_hit": self.known}
-        os.makedirs(os.path.join(VERIF, "evidence"), exist_ok=True)
-        with open(os.path.join(VERIF, "evidence", f"{self.pid}.json"), "w") as fh:
-            json.dump(ev, fh, indent=1, default=str)
+        if self.only_key is None:
+            os.makedirs(os.path.join(VERIF, "evidence"), exist_ok=True)
+            with open(os.path.join(VERIF, "evidence", f"{self.pid}.json"), "w") as fh:
+                json.dump(ev, fh, indent=1, default=str)
         for k in self.known:
             print(f"KNOWN-FINDING: property={self.pid} {k['key']} :: {k['what']}")
         for v in self.violations:
